@@ -14,6 +14,7 @@ import (
 	"sort"
 	"sync"
 	"sync/atomic"
+	"time"
 )
 
 const MaxDelta = 60 * 60 * 24 * 30
@@ -101,6 +102,9 @@ type Server struct {
 	LogOn     bool
 	seq       int
 	casCtr    uint64 // last CAS value handed out (starts well above 0: low bytes non-zero)
+	// BodyDelay > 0: a reply is written in two pieces, its 24-byte header first and the rest after
+	// this pause (a body that arrives after its header, as over a real network)
+	BodyDelay time.Duration
 	// Segment > 0: connections handed out by Pipe() deliver the backend's bytes to their reader
 	// in pieces of 1..Segment bytes
 	Segment int
@@ -427,7 +431,15 @@ func (s *Server) serve(c io.ReadWriteCloser, id int) {
 		}
 		out.Write(reply)
 		if !isQuiet(op) {
-			if _, err := c.Write(out.Bytes()); err != nil {
+			b := out.Bytes()
+			if s.BodyDelay > 0 && len(b) > 24 {
+				if _, err := c.Write(b[:24]); err != nil {
+					return
+				}
+				time.Sleep(s.BodyDelay)
+				b = b[24:]
+			}
+			if _, err := c.Write(b); err != nil {
 				return
 			}
 			out.Reset()
